@@ -14,7 +14,21 @@ int main(void) {
     if (r != ' ') { printf("%s[%d,%d]", first ? "" : ",", c, (int)(unsigned char)r); first = 0; }
   }
   printf("],\"degenerates\":[");
+#ifndef SSM_NO_DEGENERATES_STRING
   for (k = 0; degenerates[k]; k++) printf("%s%d", k ? "," : "", (int)(unsigned char)degenerates[k]);
+#else
+  /* the source no longer has the `degenerates` pair string: the same relation (template code, base) is obtained from the
+     behaviour of the real test_consistency on one-position inputs and written in the pair-string format */
+  {
+    int b; const char *bases = "ACGT"; int wc1[1] = {-1}, eq1[1] = {0}; char S1[2] = {0, 0}, St1[2] = {0, 0};
+    N = 1; k = 0;
+    FILE *devnull = freopen("/dev/null", "w", stderr); (void)devnull;
+    for (c = 33; c < 127; c++) for (b = 0; b < 4; b++) {
+      S1[0] = bases[b]; St1[0] = (char)c;
+      if (test_consistency(S1, St1, wc1, eq1)) { printf("%s%d,%d", k ? ",32," : "", c, (int)bases[b]); k = 1; }
+    }
+  }
+#endif
   printf("],\"randbase\":[");
   first = 1;
   for (c = 1; c < 256; c++) {
